@@ -520,8 +520,15 @@ class BasicNextPatcherVisitor(BasicConstructVisitor):
         self.for_stack.append(for_statement.var)
 
     def visit_next_statement(self, next_statement):
-        if self.for_stack and len(next_statement.var_list.exp_list) == 0:
-            next_statement.var_list.exp_list.append(self.for_stack.pop())
+        if len(next_statement.var_list.exp_list) == 0:
+            if self.for_stack:
+                next_statement.var_list.exp_list.append(self.for_stack.pop())
+            return
+
+        # NEXT with explicit variables closes those loops too
+        for var in next_statement.var_list.exp_list:
+            if self.for_stack and self.for_stack[-1].name() == var.name():
+                self.for_stack.pop()
 
 
 class BasicFunctionalExpressionPatcherVisitor(BasicConstructVisitor):
